@@ -84,12 +84,18 @@ pub fn fu_ctor(n: usize) {
     vassert!(f.capacity() == n, "C15:with_capacity(n).capacity() != n");
     {
         let (groups, rem, cursor) = f.verif_parts();
-        vassert!(rem == 0 && cursor == 0 && groups.len() == if n == 0 { 0 } else { 1 }, "C15:with_capacity built an inconsistent group list");
+        vassert!(rem == 0 && cursor == 0 && groups.len() <= 1, "C15:with_capacity built an inconsistent group list");
+        // growth doubles the last group's capacity: a group of capacity 0 can never grow
+        vassert!(groups.len() == 0 || groups[0].capacity() == n && n > 0, "C15:with_capacity built a group of capacity 0 (pushes can never be accepted)");
     }
     let w = gh::task_waker(0);
     let mut cx = Context::from_waker(&w);
     vassert!(matches!(Pin::new(&mut f).poll_next(&mut cx), Poll::Ready(None)), "C02:empty collection did not answer Ready(None)");
     vassert!(g().task_wakes[0] == 0, "C14:polling an empty collection woke the task");
+    // the unbounded collection accepts every push, whatever capacity it was built with
+    // (a panic inside /repo is a violation: the harness is registered panic_is_violation)
+    f.push(Fut::new(0));
+    vassert!(f.len() == 1 && !f.is_empty() && f.capacity() >= 1, "C15:push into a fresh unbounded collection not accepted");
     vcover!(n == 0, "cover:cap0");
     core::mem::forget(f);
 }
